@@ -1,0 +1,12 @@
+//go:build verif
+
+package table
+
+// VerifEventHook is set by package badger (verif_on.go) to its persistence-event log.
+var VerifEventHook func(kind int, path string, a, b int64)
+
+func vevent(kind int, path string, a, b int64) {
+	if h := VerifEventHook; h != nil {
+		h(kind, path, a, b)
+	}
+}
